@@ -31,6 +31,7 @@ import json
 import os
 import random
 import re
+import zlib
 from concurrent.futures import ThreadPoolExecutor
 
 from harness import core
@@ -99,7 +100,13 @@ def cfg(consts, deviations=(), invariants=INVARIANTS, fams=None):
 
 # ------------------------------------------------------------------------------------------------ concretisation
 CONCRETE = {'A': 'A', 'B': 'B', 'C': 'C', 'D': 'D', 'SB': 'TAB', 'PB': 'EXACTLY_TMP'}
-ABSTRACT = {v: k for k, v in CONCRETE.items()}
+# every fourth program writes its symbols with names that are not ASCII (letters are letters)
+CONCRETE_U = dict(CONCRETE, A='Ä', B='größe', C='Cé', D='ñD')
+ABSTRACT = {v: k for k, v in list(CONCRETE.items()) + list(CONCRETE_U.items())}
+
+
+def names_of(task):
+    return CONCRETE_U if zlib.crc32(task['key'].encode()) % 4 == 0 else CONCRETE
 LIT = {'A': 'a', 'B': 'b', 'C': 'c', 'D': 'd'}
 LITROOT = {'B': '-rel-act ', 'C': ''}
 U = 'abcd'
@@ -162,20 +169,21 @@ def concretize(task, probe):
     """-> (text of the test case, {line number in the file: instruction (1-based index in the program)})
     The name `printenv` is asked for is the one the specification predicts (a literal, not a second reference)."""
     exp_name = {o['i']: text_of(o['name']) for o in task['obs'] if o['k'] == 'env'}
+    names = names_of(task)
     lines, where = [], {}
     phase = None
     for i, ins in enumerate(task['prog'], 1):
         if ins['ph'] != phase:
             phase = ins['ph']
             lines.append('[%s]' % phase)
-        refs = [CONCRETE[r] for r in ins['refs']]
+        refs = [names[r] for r in ins['refs']]
         f = dict(X=refs[0] if refs else '', Y=refs[1] if len(refs) > 1 else '', K=key_of(i), KU=key_of(i).upper(),
                  PROBE=probe, NAME=exp_name.get(i, 'NONE'))
         if ins['op'] == 'def':
             l = LIT.get(ins['name'], 'z')
             pos = U.find(l) + 1
             f.update(l=l, pos=pos, nxt=U[pos % 4], relopt=LITROOT.get(ins['name'], '-rel-tmp '))
-            src = [('def %s %s = %s' % (ins['type'], CONCRETE[ins['name']], VALUE[ins['shape']].format(**f))).rstrip()]
+            src = [('def %s %s = %s' % (ins['type'], names[ins['name']], VALUE[ins['shape']].format(**f))).rstrip()]
         elif ins['ph'] == 'act':
             src = [ACT_USE[ins['shape']].format(**f)]
         else:
@@ -359,7 +367,8 @@ def judge_symbol(task, o):
     if o['exit'] != 0:
         return 'ReportAccepted: exit %s %r, specification a report' % (o['exit'], o['verdict'])
     prog = task['prog']
-    exp = [[CONCRETE[l['name']] if l['name'] != '-' else key_of(l['i']).upper(), l['type'], l['nrefs']]
+    names = names_of(task)
+    exp = [[names[l['name']] if l['name'] != '-' else key_of(l['i']).upper(), l['type'], l['nrefs']]
            for l in task['report']]
     if any(l[0] == '?' for l in o['listing']):
         return None     # the layout of the listing is not recognised: the manual fixes its contents, not its layout
@@ -367,7 +376,7 @@ def judge_symbol(task, o):
         return 'ReportListing: %s, specification %s' % (o['listing'], exp)
     for l, refs in zip(exp, task['refsOf']):
         got = o['symbols'].get(l[0])
-        li = [x for x in task['report'] if (CONCRETE[x['name']] if x['name'] != '-' else key_of(x['i']).upper()) == l[0]][0]
+        li = [x for x in task['report'] if (names[x['name']] if x['name'] != '-' else key_of(x['i']).upper()) == l[0]][0]
         if got is None or got['def_exit'] != 0 or got['ref_exit'] != 0:
             return 'ReportOfSymbol: %s: %s' % (l[0], got)
         if got['definition'][:1] != [[prog[li['i'] - 1]['ph'], li['i']]]:
